@@ -124,6 +124,16 @@ CRB = "one well-formed upload (size <= 2 MiB) into an empty cache, killed at fil
 h("VerifCrashPutCasRaw", D, CR, CRB % 8, "kill during an upload (uncompressed CAS): restart succeeds, acknowledged data served, nothing torn served", unwind=24, switches=-1)
 h("VerifCrashPutAC", D, CR, CRB % 8, "kill during an upload (AC)", unwind=24, switches=-1)
 h("VerifCrashPutCasZstd", D, CR, CRB % 14, "kill during an upload (compressed CAS): restart succeeds, sizes agree; a file whose table is not finalised is rejected by readHeader", unwind=24, switches=-1)
+h("VerifCrashFetchCasZstd", D, CR, "backend fetch of a 1 500 000-byte blob in compressed CAS mode, casblob file of symbolic length 46..4 MiB with a valid finalised header, killed at step 0..8 with an arbitrary prefix of the interrupted write on disk; restart; read raw or as zstd, size known or unknown", "kill during a backend fetch: restart succeeds, a file cut short is never served, a completed fetch is served", unwind=24, switches=-1)
+
+CC = ["zz_verif_conc.go", "zz_verif_put.go"]
+CCB = "two goroutines, <= %d preemptions at mutex acquisitions / file-system steps / channel operations (round-robin at blocking points); sizes symbolic"
+h("VerifConcReadersCorrupt", D, CC, CCB % 2 + "; 1..2 entries, the one read is too short to hold a header", "two concurrent readers of a corrupt entry: not served, dropped once, accounting and directory exact at quiescence", unwind=24, switches=2)
+h("VerifConcReadOverwrite", D, CC, CCB % 2 + "; one AC entry, reader with known or unknown size, overwriting upload of 1..2^30 bytes", "a reader concurrent with an overwrite gets a miss or one whole version; C03/C04 at quiescence; no goroutine or file left", unwind=24, switches=2)
+h("VerifConcCorruptReadPut", D, CC, CCB % 2 + "; one corrupt compressed CAS entry, a reader and a re-upload of the same blob", "dropping a corrupt entry concurrently with its replacement keeps index, accounting and directory consistent", unwind=24, switches=2)
+h("VerifConcPutPut", D, CC, CCB % 1 + "; empty cache, two uploads of one AC key, 1..2^30 bytes each, no space pressure", "two concurrent uploads of one key: one whole acknowledged version survives; C03/C04 at quiescence", unwind=24, switches=1)
+h("VerifConcPutPutDeep", D, CC, CCB % 2 + "; 0..1 prior entries, two uploads of one AC key, 1..2^30 bytes each, no space pressure", "as VerifConcPutPut", unwind=24, switches=2, timeout_s=1500)
+h("VerifConcReadOverwriteDeep", D, CC, CCB % 3 + "; one AC entry, reader with known or unknown size, overwriting upload, no space pressure; Mutex.Unlock is a preemption point as well", "as VerifConcReadOverwrite", unwind=24, switches=3, yield_unlock=True, timeout_s=1500)
 
 CF = "./config"
 CFF = ["zz_verif_config.go"]
@@ -156,7 +166,9 @@ P = {
          ["VerifPutCasZstd", "VerifPutCasZstdProxy", "VerifGetCasZstd", "VerifProxyGetCasRaw", "VerifProxyGetCasZstd"], [FSM, CODEC, HASH], ["files created by anything other than bazel-remote", "directory fsync"]),
  "C05": (["VerifLRUAdd3", "VerifLRUReserve3", "VerifLRUGet", "VerifGetAC", "VerifContains"], ["VerifLRUAdd4", "VerifLRUReserve4", "VerifGetCasZstd", "VerifGetCasRaw"], [FSM], ["atime order after restart (C09)", "more live entries than the bound"]),
  "C06": (["VerifValidatedAC", "VerifValidatedACDir", "VerifValidatedACProxy", "VerifGetActionResultMiss"], ["VerifValidatedAC2"], [FSM, "proto.Unmarshal by identity: stored bytes decode to the registered message"], ["real protobuf decoding", "races between the check and a concurrent eviction"]),
- "C08": (["VerifCrashPutCasRaw", "VerifCrashPutAC", "VerifCrashPutCasZstd"], [], [FSM, HASH, CODEC], ["power loss, write reordering, fsync (process-kill semantics only)", "kill during start-up migration", "kill during overwrite/eviction/backend fetch (upload into an empty cache only)"]),
+ "C07": (["VerifConcReadersCorrupt", "VerifConcReadOverwrite", "VerifConcPutPut", "VerifConcCorruptReadPut"], ["VerifConcPutPutDeep", "VerifConcReadOverwriteDeep"], [FSM, HASH, CODEC, "sequentially consistent interleaving of goroutines at the scheduling points (mutex acquisition, file-system step, channel operation, go statement); a blocked goroutine hands over round-robin"],
+         ["data races / the Go memory model (the executor interleaves whole instructions sequentially consistently: `depends on unsynchronised memory access` is not decided)", "more than two concurrent requests, more preemptions than the bound", "backend fetches and the FindMissing worker pool under preemption (decided for their own schedules in C10/C12)", "the gRPC/HTTP handlers above the disk layer"]),
+ "C08": (["VerifCrashPutCasRaw", "VerifCrashPutAC", "VerifCrashPutCasZstd", "VerifCrashFetchCasZstd"], [], [FSM, HASH, CODEC], ["power loss, write reordering, fsync (process-kill semantics only)", "kill during start-up migration", "kill during overwrite/eviction (uploads and backend fetches into an empty cache only)", "kill during a backend fetch in uncompressed modes"]),
  "C09": (["VerifLoad2", "VerifLoadDup", "VerifLoadExtras"], ["VerifLoad3"], [FSM, "access times are the model's (distinct) integers"], ["real readdir order and atime semantics (relatime)", "legacy v0/v1 layouts (migration code is executed only on a current layout)", "more than 3 files", "schedules other than round-robin"]),
  "C10": (["VerifFindMissing3", "VerifFindMissingProxy1", "VerifFindMissingBatch", "VerifFindMissingBatchProxy", "VerifFilterNonNil", "VerifContains"], ["VerifFindMissing4", "VerifFindMissingProxy2", "VerifFindMissingBatch2"], ["the backend is an arbitrary per-hash verdict"], ["hundreds of digests with all states symbolic", "512 real workers", "more than 2 preemptive context switches"]),
  "C11": (["VerifValidateFilesDirs", "VerifValidateSymlinks", "VerifValidateNil", "VerifGetActionResultInline", "VerifGetActionResultMiss", "VerifUpdateActionResult", "VerifHTTPPutAC"], [], ["strings are ASCII (Go byte strings and SMT code-point strings agree there)"], ["field-by-field fidelity of proto.Marshal/Unmarshal and protojson", "non-ASCII strings"]),
